@@ -4,7 +4,10 @@ From TS Require Import Model.Str Model.Outcome Model.Unicode Model.Syntax Model.
                        Model.Lang.Common Model.Lang.Decl Model.Lang.TypeScript Model.Lang.Kotlin Model.Lang.Swift
                        Model.Lang.Scala Model.Lang.Go Model.Lang.Python.
 From TS Require Import Spec.SerdeCase Spec.C16Spec Spec.Serde Spec.C03Spec Spec.C01Spec.
-From TS Require Proofs.C01.
+From TS Require Import Model.Reconcile.
+From TS Require Proofs.C01 Proofs.C01Front Proofs.C01Layout.
+Import ListNotations.
+Local Open Scope N_scope.
 
 (* [Proofs.C01.groups_fit l expected gs]: the observed member lists gs correspond one to one, in order,
    to the expected key lists, every member binds its key (Scala: declares the key with '-' replaced
@@ -12,7 +15,7 @@ From TS Require Proofs.C01.
    domain (keys over [A-Za-z0-9_-], non-empty; Scala: no '-') this is the verdict the check evaluates. *)
 Theorem C01_fit_is_good :
   forall (l : lang) (expected : list (list str)) (gs : list (list member)),
-    Proofs.C01.groups_fit l expected gs -> dom_C01 l expected = true -> good_groups_C01 expected gs = true.
+    Proofs.C01.groups_fit l expected gs -> dom_C01 l expected = true -> good_groups_C01 l expected gs = true.
 Proof. exact Proofs.C01.groups_good. Qed.
 Print Assumptions C01_fit_is_good.
 
@@ -61,3 +64,106 @@ Theorem C01_back_python :
     Proofs.C01.groups_fit Python (ir_groups it) (obs_groups (flat_map py_obs ds)).
 Proof. exact Proofs.C01.py_decl_fits. Qed.
 Print Assumptions C01_back_python.
+
+(* ---------------------------------------------------------------------------------------------
+   Front end: for every Unicode table agreeing with ASCII below 128, every --target-os list, every
+   struct with named fields / unit struct / enum - any number of #[serde(..)] attributes, arguments
+   in any order, interleaved with any other attributes - whose non-skipped fields are conventional
+   identifiers (raw or not), whose serde(rename) values are over [A-Za-z_][A-Za-z0-9_-]* and whose
+   rename_all (container; for a struct variant the VARIANT's) is one of the 8 rules or absent:
+   the keys in the IR typeshare builds are serde's keys of the source (Spec/Serde.v), list by list. *)
+Theorem C01_front_struct :
+  forall (uc : unicode), unicode_ok uc -> forall (tstr : str -> option ty) (T : list str) attrs ident gens l s,
+    parse_struct uc tstr T attrs ident gens (FNamed l) = Ok (ItStruct s) ->
+    src_dom T (IStruct attrs ident gens (FNamed l)) = true ->
+    src_groups T (IStruct attrs ident gens (FNamed l)) = Some (ir_groups (ItStruct s)).
+Proof. exact Proofs.C01Front.front_struct. Qed.
+Print Assumptions C01_front_struct.
+
+Theorem C01_front_enum :
+  forall (uc : unicode), unicode_ok uc -> forall (tstr : str -> option ty) (T : list str) attrs ident gens vs e,
+    parse_enum uc tstr T attrs ident gens vs = Ok (ItEnum e) ->
+    src_dom T (IEnum attrs ident gens vs) = true ->
+    src_groups T (IEnum attrs ident gens vs) = Some (ir_groups (ItEnum e)).
+Proof. exact Proofs.C01Front.front_enum. Qed.
+Print Assumptions C01_front_enum.
+
+(* reconcile rewrites type references only: every struct / enum it hands to the back ends carries the
+   member keys of the parsed one *)
+Theorem C01_reconcile_structs :
+  forall rn cn pd s', In s' (p_structs (reconcile_crate rn cn pd)) ->
+    exists s, In s (p_structs pd) /\ sid s' = sid s /\ ir_groups (ItStruct s') = ir_groups (ItStruct s).
+Proof. exact Proofs.C01Front.reconcile_crate_structs. Qed.
+Print Assumptions C01_reconcile_structs.
+
+Theorem C01_reconcile_enums :
+  forall rn cn pd e', In e' (p_enums (reconcile_crate rn cn pd)) ->
+    exists e, In e (p_enums pd) /\ eid (enum_shared e') = eid (enum_shared e) /\ ir_groups (ItEnum e') = ir_groups (ItEnum e).
+Proof. exact Proofs.C01Front.reconcile_crate_enums. Qed.
+Print Assumptions C01_reconcile_enums.
+
+(* Composition, per source item and language: source item in the property's domain --front end--> IR
+   item; any observation that fits the IR item's keys (which is what C01_back_<language> establishes
+   for whatever the back end decides on, and what reconcile preserves) satisfies the verdict the check
+   evaluates on the implementation, with serde's keys of the SOURCE as the expectation. *)
+Theorem C01_field_keys :
+  forall (uc : unicode), unicode_ok uc -> forall (tstr : str -> option ty) (T : list str)
+         (l : lang) (it : item) (rit : ritem) (expected : list (list str)) (gs : list (list member)),
+    Proofs.C01Front.parses uc tstr T it rit -> Proofs.C01Front.c01_shape it rit -> src_dom T it = true ->
+    src_groups T it = Some expected -> dom_C01 l expected = true ->
+    Proofs.C01.groups_fit l (ir_groups rit) gs ->
+    good_groups_C01 l expected gs = true.
+Proof. exact Proofs.C01Front.C01_end_to_end. Qed.
+Print Assumptions C01_field_keys.
+
+(* ---------------------------------------------------------------------------------------------
+   Layout: the binding each printer writes spells the key as a double-quoted literal without escape
+   sequences, and a literal reader gets the key back (keys over [A-Za-z0-9_-]). *)
+Theorem C01_layout_typescript :
+  forall k rest, c01_key_ok k = true ->
+    if c01_has_dash k then Proofs.C01Layout.read_lit (typescript_property_aware_rename k ++ rest) = Some (k, rest)
+    else typescript_property_aware_rename k = k.
+Proof. exact Proofs.C01Layout.ts_property_token. Qed.
+Print Assumptions C01_layout_typescript.
+
+Theorem C01_layout_kotlin :
+  forall m k, km_serial_name m = Some k -> c01_key_ok k = true ->
+    kt_render_member m = (kt_write_comments 1 (km_docs m) ++ [ch_tab]) ++ lit "@SerialName(" ++ [ch_dq] ++ k ++ [ch_dq] ++ lit ")" ++ nl ++ Proofs.C01Layout.kt_member_rest m /\
+    Proofs.C01Layout.read_lit ([ch_dq] ++ k ++ [ch_dq] ++ lit ")" ++ nl ++ Proofs.C01Layout.kt_member_rest m) = Some (k, lit ")" ++ nl ++ Proofs.C01Layout.kt_member_rest m).
+Proof. exact Proofs.C01Layout.kt_serial_name_line. Qed.
+Print Assumptions C01_layout_kotlin.
+
+Theorem C01_layout_swift :
+  forall m k, swm_coding_key m = Some k -> c01_key_ok k = true ->
+    sw_render_member_coding_key m = sw_member_ident m ++ lit " = " ++ [ch_dq] ++ k ++ [ch_dq] /\
+    Proofs.C01Layout.read_lit ([ch_dq] ++ k ++ [ch_dq]) = Some (k, []).
+Proof. exact Proofs.C01Layout.sw_coding_key_case. Qed.
+Print Assumptions C01_layout_swift.
+
+Theorem C01_layout_go :
+  forall m, c01_key_ok (gm_key m) = true ->
+    go_render_member m = Proofs.C01Layout.go_member_front m ++ lit "`json:" ++ [ch_dq] ++ Proofs.C01Layout.go_tag_body m ++ [ch_dq] ++ lit "`" ++ go_nl /\
+    Proofs.C01Layout.before_comma (Proofs.C01Layout.go_tag_body m) = gm_key m /\
+    (forall rest, Proofs.C01Layout.read_lit ([ch_dq] ++ Proofs.C01Layout.go_tag_body m ++ [ch_dq] ++ rest) = Some (Proofs.C01Layout.go_tag_body m, rest)).
+Proof. exact Proofs.C01Layout.go_json_tag. Qed.
+Print Assumptions C01_layout_go.
+
+Theorem C01_layout_python :
+  forall m k, pym_alias m = Some k -> c01_key_ok k = true ->
+    py_render_member m = Proofs.C01Layout.py_member_front m ++ lit "alias=" ++ [ch_dq] ++ k ++ [ch_dq] ++ Proofs.C01Layout.py_member_back m /\
+    Proofs.C01Layout.read_lit ([ch_dq] ++ k ++ [ch_dq] ++ Proofs.C01Layout.py_member_back m) = Some (k, Proofs.C01Layout.py_member_back m).
+Proof. exact Proofs.C01Layout.py_alias_token. Qed.
+Print Assumptions C01_layout_python.
+
+(* the hypotheses of C01_field_keys are satisfiable on a non-trivial input (an adjacently tagged enum
+   with a struct variant under the variant's rename_all, raw identifiers, a keyword rename); for Scala
+   the dashed key puts it outside the domain *)
+Theorem C01_nonvacuous :
+  exists rit, Proofs.C01Front.parses uc_exec (fun _ => None) [] Proofs.C01Front.c01_ex_item rit /\
+              Proofs.C01Front.c01_shape Proofs.C01Front.c01_ex_item rit /\
+              src_dom [] Proofs.C01Front.c01_ex_item = true /\
+              src_groups [] Proofs.C01Front.c01_ex_item = Some [[lit "user-id"; lit "class"; lit "in"]] /\
+              dom_C01 Kotlin [[lit "user-id"; lit "class"; lit "in"]] = true /\
+              dom_C01 Scala [[lit "user-id"; lit "class"; lit "in"]] = false.
+Proof. exact Proofs.C01Front.C01_nonvacuous. Qed.
+Print Assumptions C01_nonvacuous.
